@@ -151,3 +151,59 @@ fn c15_cond_shutdown() {
         assert!(REGISTER_CALLS == 1 && REGISTERED_SIGNAL == sig, "C15.SET-SIG: the action is registered once, for the requested signal");
     }
 }
+
+// ---- conditional default (C16.COND): emulate the default action iff the condition is true ---------
+static mut EMU_CALLS: usize = 0;
+static mut EMU_SIG: libc::c_int = 0;
+// contract stub of low_level::emulate_default_handler (its own contract is C16's, proved in
+// signal_details.rs): here only "was it invoked, and for which signal" matters
+pub fn emulate_stub(signal: libc::c_int) -> Result<(), Error> {
+    unsafe {
+        EMU_CALLS += 1;
+        EMU_SIG = signal;
+    }
+    Ok(())
+}
+static mut EXPECT_EMU: usize = 0;
+fn cond_default_after(_n: usize) {
+    unsafe {
+        let armed = COND_AT_DELIVERY;
+        if armed {
+            EXPECT_EMU += 1;
+        }
+        assert!(EMU_CALLS == EXPECT_EMU, "C16.COND: the default action is emulated during a delivery if and only if the condition is true at that moment");
+        assert!(EMU_CALLS == 0 || EMU_SIG == REGISTERED_SIGNAL, "C16.COND-SIG: and it is the default action of the very signal that was registered");
+        // the application may flip the condition before the next delivery
+        let v: bool = kani::any();
+        COND.as_ref().unwrap().store(v, Ordering::SeqCst);
+        COND_AT_DELIVERY = v;
+    }
+}
+static mut COND_AT_DELIVERY: bool = false;
+
+#[kani::proof]
+#[kani::unwind(34)]
+#[kani::stub(signal_hook_registry::register, register_stub)]
+#[kani::stub(crate::low_level::signal_details::emulate_default_handler, emulate_stub)]
+fn c16_cond_default() {
+    lm::link();
+    let v0: bool = kani::any();
+    let cond = Arc::new(AtomicBool::new(v0));
+    let sig: libc::c_int = kani::any();
+    unsafe {
+        COND = Some(Arc::clone(&cond));
+        COND_AT_DELIVERY = v0;
+        AFTER_EACH = Some(cond_default_after);
+    }
+    let r = register_conditional_default(sig, cond);
+    unsafe {
+        if low_level::signal_name(sig).is_none() {
+            assert!(r.is_err() && REGISTER_CALLS == 0 && EMU_CALLS == 0, "C16.COND-UNKNOWN: a signal the library does not know is refused with an error before anything is registered");
+            kani::cover!(true, "C16.cover: unknown signal refused");
+        } else {
+            assert!(REGISTER_CALLS == 1 && REGISTERED_SIGNAL == sig, "C15.SET-SIG: the action is registered once, for the requested signal");
+            kani::cover!(EMU_CALLS == 2, "C16.cover: emulated on both deliveries");
+            kani::cover!(EMU_CALLS == 0, "C16.cover: never emulated");
+        }
+    }
+}
